@@ -172,6 +172,11 @@ func (s *Server) doMergeKeysCommand(conn redcon.Conn, cmdName string, cmd redcon
 	case "exists", "del":
 		cnt := int64(0)
 		for _, ret := range results {
+			if err, ok := ret.(error); ok {
+				// a failed part must not be reported as "no such key"
+				conn.WriteError(err.Error())
+				return
+			}
 			if v, ok := ret.(int64); ok {
 				cnt += v
 			}
